@@ -22,7 +22,23 @@ func feFrom(v *big.Int) *field.Element {
 	return fe
 }
 
-func feHex(fe *field.Element) string { return hx(fe.Bytes()) }
+// feHex is the canonical encoding of fe; like scHex it watches the internal (Montgomery) representation.
+func feHex(fe *field.Element) string {
+	b := fe.Bytes()
+	if canonSink != nil {
+		canonSeen++
+		fresh, err := field.NewElementFromCanonicalBytes((*[32]byte)(b))
+		odd := err != nil || fresh.VerifMont() != fe.VerifMont() || fresh.Equal(fe) != 1 || (fe.IsZero() == 1) != (new(big.Int).SetBytes(b).Sign() == 0)
+		if odd || canonSeen%97 == 0 {
+			eq := -1
+			if err == nil {
+				eq = int(fresh.Equal(fe))
+			}
+			canonSink.E("fe.Canon", "v", hx(b), "mont", h32(limbsToBig(fe.VerifMont())), "iszero", int(fe.IsZero()), "eq_fresh", eq)
+		}
+	}
+	return hx(b)
+}
 
 // catch runs f and reports whether it panicked.
 func catch(f func()) (panicked bool) {
